@@ -10,7 +10,7 @@ KeysAll == { K("lfs.url", TRUE), K("remote.origin.lfsurl", TRUE), K("lfs.skipdow
              K("lfs.fetchrecentalways", FALSE), K("lfs.fetchrecentrefsdays", FALSE), K("lfs.fetchrecentcommitsdays", FALSE),
              K("lfs.fetchrecentremoterefs", FALSE), K("lfs.pruneoffsetdays", FALSE), K("lfs.pruneverifyremotealways", FALSE),
              K("lfs.pruneverifyunreachablealways", FALSE), K("lfs.pruneremotetocheck", FALSE), K("lfs.storage", FALSE),
-             K("lfs.customtransfer.x.path", FALSE), K("lfs.extension.x.priority", FALSE), K("lfs.extension.x.clean", FALSE),
+             K("lfs.customtransfer.x.path", FALSE), K("lfs.extension.x.priority", FALSE), K("lfs.extension.x.clean", FALSE), K("lfs.extension.x.other", FALSE),
              K("lfs.standalonetransferagent", FALSE),
              K("remote.pushdefault", FALSE), K("remote.lfsdefault", FALSE), K("remote.lfspushdefault", FALSE),
              K("remote.origin.url", FALSE), K("remote.a.b.url", FALSE), K("remote.origin.pushurl", FALSE),
